@@ -78,10 +78,19 @@ pub enum Sk {
 	Str,
 	Rec,
 	Null,
+	/// array<long>
+	ArrLong,
+	/// record{xs: array<int>, m: map<string>}
+	RecColl,
 }
 
 impl Sk {
 	pub const ALL: [Sk; 5] = [Sk::Bytes, Sk::Long, Sk::Str, Sk::Rec, Sk::Null];
+	/// schemas whose values contain collections
+	pub const COLL: [Sk; 2] = [Sk::ArrLong, Sk::RecColl];
+	pub fn is_coll(self) -> bool {
+		matches!(self, Sk::ArrLong | Sk::RecColl)
+	}
 	pub fn json(self) -> &'static str {
 		match self {
 			Sk::Bytes => "\"bytes\"",
@@ -89,6 +98,8 @@ impl Sk {
 			Sk::Str => "\"string\"",
 			Sk::Rec => "{\"type\":\"record\",\"name\":\"R\",\"fields\":[{\"name\":\"a\",\"type\":\"long\"},{\"name\":\"b\",\"type\":\"string\"}]}",
 			Sk::Null => "\"null\"",
+			Sk::ArrLong => "{\"type\":\"array\",\"items\":\"long\"}",
+			Sk::RecColl => "{\"type\":\"record\",\"name\":\"C\",\"fields\":[{\"name\":\"xs\",\"type\":{\"type\":\"array\",\"items\":\"int\"}},{\"name\":\"m\",\"type\":{\"type\":\"map\",\"values\":\"string\"}}]}",
 		}
 	}
 	pub fn label(self) -> &'static str {
@@ -98,6 +109,8 @@ impl Sk {
 			Sk::Str => "string",
 			Sk::Rec => "record{a:long,b:string}",
 			Sk::Null => "null(zero-byte datums)",
+			Sk::ArrLong => "array<long>",
+			Sk::RecColl => "record{xs:array<int>,m:map<string>}",
 		}
 	}
 }
@@ -112,6 +125,19 @@ pub enum Val {
 	Str(String),
 	Rec(i64, String),
 	Null,
+	Arr(Vec<i64>),
+	Coll(Vec<i32>, BTreeMap<String, String>),
+}
+
+impl Val {
+	/// size of the largest array/map inside the value
+	pub fn max_collection_len(&self) -> usize {
+		match self {
+			Val::Arr(v) => v.len(),
+			Val::Coll(xs, m) => xs.len().max(m.len()),
+			_ => 0,
+		}
+	}
 }
 
 impl std::fmt::Debug for Val {
@@ -125,6 +151,10 @@ impl std::fmt::Debug for Val {
 			Val::Rec(a, s) if s.len() > 24 => write!(f, "Rec(a={a}, b: len={}, hash={:016x})", s.len(), hash64(s)),
 			Val::Rec(a, s) => write!(f, "Rec(a={a}, b={s:?})"),
 			Val::Null => write!(f, "Null"),
+			Val::Arr(v) if v.len() > 6 => write!(f, "Arr({} longs, hash={:016x})", v.len(), hash64(v)),
+			Val::Arr(v) => write!(f, "Arr({v:?})"),
+			Val::Coll(xs, m) if xs.len() > 6 || m.len() > 3 => write!(f, "Coll(xs: {} ints, m: {} entries, hash={:016x})", xs.len(), m.len(), hash64(&(xs, m))),
+			Val::Coll(xs, m) => write!(f, "Coll(xs={xs:?}, m={m:?})"),
 		}
 	}
 }
@@ -142,8 +172,21 @@ impl Serialize for Val {
 				st.end()
 			}
 			Val::Null => s.serialize_unit(),
+			Val::Arr(v) => s.collect_seq(v.iter()),
+			Val::Coll(xs, m) => {
+				let mut st = s.serialize_struct("C", 2)?;
+				st.serialize_field("xs", xs)?;
+				st.serialize_field("m", m)?;
+				st.end()
+			}
 		}
 	}
+}
+
+#[derive(Deserialize)]
+struct CollT {
+	xs: Vec<i32>,
+	m: BTreeMap<String, String>,
 }
 
 #[derive(Deserialize)]
@@ -154,8 +197,47 @@ struct RecT {
 
 /// Reference encoding of one datum (Avro binary encoding, from the specification).
 pub fn enc(v: &Val, out: &mut Vec<u8>) {
+	enc_layout(v, 0, false, out)
+}
+
+/// blocks of an array/map: `chunk` items per block (0 = all in one block), `sized` = negative count + byte size
+fn enc_blocks(n: usize, chunk: usize, sized: bool, out: &mut Vec<u8>, mut item: impl FnMut(usize, &mut Vec<u8>)) {
+	use vmodel::value::write_long;
+	let chunk = if chunk == 0 { n.max(1) } else { chunk };
+	let mut i = 0;
+	while i < n {
+		let k = chunk.min(n - i);
+		let mut body = Vec::new();
+		for j in i..i + k {
+			item(j, &mut body);
+		}
+		if sized {
+			write_long(-(k as i64), out);
+			write_long(body.len() as i64, out);
+		} else {
+			write_long(k as i64, out);
+		}
+		out.extend_from_slice(&body);
+		i += k;
+	}
+	write_long(0, out);
+}
+
+/// Reference encoding with a chosen block layout for the arrays/maps inside the value.
+pub fn enc_layout(v: &Val, chunk: usize, sized: bool, out: &mut Vec<u8>) {
 	use vmodel::value::write_long;
 	match v {
+		Val::Arr(xs) => enc_blocks(xs.len(), chunk, sized, out, |j, o| write_long(xs[j], o)),
+		Val::Coll(xs, m) => {
+			enc_blocks(xs.len(), chunk, sized, out, |j, o| write_long(xs[j] as i64, o));
+			let pairs: Vec<(&String, &String)> = m.iter().collect();
+			enc_blocks(pairs.len(), chunk, sized, out, |j, o| {
+				write_long(pairs[j].0.len() as i64, o);
+				o.extend_from_slice(pairs[j].0.as_bytes());
+				write_long(pairs[j].1.len() as i64, o);
+				o.extend_from_slice(pairs[j].1.as_bytes());
+			});
+		}
 		Val::Bytes(b) => {
 			write_long(b.len() as i64, out);
 			out.extend_from_slice(b);
@@ -201,6 +283,29 @@ fn rd_len_bytes<'a>(b: &'a [u8], i: &mut usize) -> Result<&'a [u8], String> {
 	Ok(s)
 }
 
+/// blocks of an array/map (any layout): calls `item` once per element
+fn rd_blocks(b: &[u8], i: &mut usize, mut item: impl FnMut(&[u8], &mut usize) -> Result<(), String>) -> Result<(), String> {
+	loop {
+		let n = rd_long(b, i)?;
+		if n == 0 {
+			return Ok(());
+		}
+		let count = if n < 0 {
+			let _size = rd_long(b, i)?;
+			n.unsigned_abs()
+		} else {
+			n as u64
+		};
+		for _ in 0..count {
+			item(b, i)?;
+		}
+	}
+}
+
+fn rd_string(b: &[u8], i: &mut usize) -> Result<String, String> {
+	Ok(std::str::from_utf8(rd_len_bytes(b, i)?).map_err(|e| e.to_string())?.to_owned())
+}
+
 /// Reference decoding of a block: exactly `count` datums that use exactly `data`.
 pub fn dec_block(sk: Sk, data: &[u8], count: u64) -> Result<Vec<Val>, String> {
 	let mut i = 0usize;
@@ -216,6 +321,29 @@ pub fn dec_block(sk: Sk, data: &[u8], count: u64) -> Result<Vec<Val>, String> {
 				Val::Rec(a, s)
 			}
 			Sk::Null => Val::Null,
+			Sk::ArrLong => {
+				let mut xs = Vec::new();
+				rd_blocks(data, &mut i, |b, i| Ok(xs.push(rd_long(b, i)?)))?;
+				Val::Arr(xs)
+			}
+			Sk::RecColl => {
+				let mut xs = Vec::new();
+				rd_blocks(data, &mut i, |b, i| {
+					let n = rd_long(b, i)?;
+					xs.push(i32::try_from(n).map_err(|_| format!("int out of range: {n}"))?);
+					Ok(())
+				})?;
+				let mut m = BTreeMap::new();
+				rd_blocks(data, &mut i, |b, i| {
+					let k = rd_string(b, i)?;
+					let v = rd_string(b, i)?;
+					if m.insert(k.clone(), v).is_some() {
+						return Err(format!("duplicate map key {k:?}"));
+					}
+					Ok(())
+				})?;
+				Val::Coll(xs, m)
+			}
 		};
 		out.push(v);
 	}
@@ -312,7 +440,23 @@ pub fn big_val(sk: Sk, s: usize, inc: bool, seed: u64) -> Option<Val> {
 				None
 			}
 		}
-		Sk::Null => None,
+		Sk::Null | Sk::ArrLong | Sk::RecColl => None,
+	}
+}
+
+/// A value of a collection schema with n elements (`big_map`: the map too has n entries).
+pub fn coll_val(sk: Sk, n: usize, big_map: bool, seed: u64) -> Option<Val> {
+	const INTS: [i32; 8] = [0, -1, 64, -65, 8192, i32::MIN, i32::MAX, 1];
+	let mut r = XorShift::new(seed ^ 0xC011);
+	match sk {
+		Sk::ArrLong => Some(Val::Arr((0..n).map(|i| if i % 3 == 0 { long_of_len(1 + (r.next() % 10) as usize, r.next()) } else { (r.next() % 200) as i64 - 100 }).collect())),
+		Sk::RecColl => {
+			let xs: Vec<i32> = (0..n).map(|i| if i % 5 == 0 { INTS[(r.next() % 8) as usize] } else { (r.next() % 20000) as i32 - 10000 }).collect();
+			let entries = if big_map { n } else { n.min(2) };
+			let m: BTreeMap<String, String> = (0..entries).map(|i| (format!("k{i}"), if i % 2 == 0 { "v".to_owned() } else { format!("\u{e9}{}", r.next() % 1000) })).collect();
+			Some(Val::Coll(xs, m))
+		}
+		_ => None,
 	}
 }
 
@@ -335,6 +479,7 @@ pub fn run_vals(sk: Sk, s: usize, inc: bool, seed: u64) -> Option<Vec<Val>> {
 	let mut left = s;
 	match sk {
 		Sk::Null => return Some(vec![Val::Null; s]),
+		Sk::ArrLong | Sk::RecColl => return None,
 		Sk::Long => {
 			while left > 10 {
 				let k = if inc { 1 + (r.next() % 10) as usize } else { 2 };
@@ -377,6 +522,7 @@ pub fn small_val(sk: Sk, i: usize) -> Val {
 		Sk::Str => Val::Str(STRS[i % STRS.len()].to_owned()),
 		Sk::Rec => Val::Rec(LONGS[i % LONGS.len()], STRS[(i / 2) % STRS.len()].to_owned()),
 		Sk::Null => Val::Null,
+		Sk::ArrLong | Sk::RecColl => coll_val(sk, [0usize, 1, 3, 2][i % 4], i % 2 == 1, i as u64).expect("collection schema"),
 	}
 }
 
@@ -403,6 +549,8 @@ pub enum Op {
 	F,
 	/// serialize n datums of exactly `len` encoded bytes each
 	Mid { n: usize, len: usize, inc: bool },
+	/// one value of a collection schema with n elements (`map`: the map too has n entries); `push`: through push_serialized
+	Coll { n: usize, map: bool, push: bool },
 }
 
 impl Op {
@@ -418,6 +566,7 @@ impl Op {
 			Op::PRun { s, inc } => format!("PRun({s},{})", k(inc)),
 			Op::F => "F".into(),
 			Op::Mid { n, len, inc } => format!("Mid({n}x{len},{})", k(inc)),
+			Op::Coll { n, map, push } => format!("{}Coll({n} elements{})", if *push { "P" } else { "" }, if *map { ", map too" } else { "" }),
 		}
 	}
 }
@@ -512,6 +661,11 @@ pub fn plan(spec: &FileSpec) -> Option<(Vec<Step>, Vec<Val>)> {
 				steps.push(Step::Push(vs));
 			}
 			Op::F => steps.push(Step::Finish),
+			Op::Coll { n, map, push } => {
+				let v = coll_val(spec.sk, *n, *map, seed)?;
+				expected.push(v.clone());
+				steps.push(if *push { Step::Push(vec![v]) } else { Step::Ser(v) });
+			}
 			Op::Mid { n, len, inc } => {
 				for i in 0..*n {
 					let v = big_val(spec.sk, *len, *inc, seed * 31 + i as u64)?;
@@ -696,6 +850,8 @@ where
 		Sk::Str => rd.deserialize_next::<String>().map(|o| o.map(Val::Str)),
 		Sk::Rec => rd.deserialize_next::<RecT>().map(|o| o.map(|r| Val::Rec(r.a, r.b))),
 		Sk::Null => rd.deserialize_next::<()>().map(|o| o.map(|()| Val::Null)),
+		Sk::ArrLong => rd.deserialize_next::<Vec<i64>>().map(|o| o.map(Val::Arr)),
+		Sk::RecColl => rd.deserialize_next::<CollT>().map(|o| o.map(|c| Val::Coll(c.xs, c.m))),
 	}
 	.map_err(|e| e.to_string())
 }
@@ -978,6 +1134,26 @@ pub fn run_case(spec: &FileSpec, params: &Params, only_reader: Option<Rk>, cover
 	if parsed.blocks.len() >= 2 {
 		cover.count("files_with_2_or_more_blocks", 1);
 	}
+	{
+		// a later block clearly larger than every earlier one (encoder buffers kept from earlier blocks)
+		let mut max_prev = 0usize;
+		let mut growing = false;
+		for (bi, b) in parsed.blocks.iter().enumerate() {
+			if bi > 0 && b.raw.len() >= 256 && b.raw.len() > 2 * max_prev {
+				growing = true;
+			}
+			max_prev = max_prev.max(b.raw.len());
+		}
+		if growing {
+			nontrivial = true;
+			cover.count(&format!("files_with_a_later_block_more_than_twice_every_earlier_one(codec={})", spec.codec.name()), 1);
+		}
+	}
+	let big_collections = expected.iter().any(|v| v.max_collection_len() > 1000);
+	if big_collections {
+		nontrivial = true;
+		cover.count("files_with_a_value_holding_an_array_or_map_of_more_than_1000_elements", 1);
+	}
 	if parsed.blocks.is_empty() {
 		cover.count("files_without_blocks", 1);
 	}
@@ -1015,6 +1191,9 @@ pub fn run_case(spec: &FileSpec, params: &Params, only_reader: Option<Rk>, cover
 		match verdict {
 			None => {
 				ok_readers.push(*rk);
+				if big_collections {
+					cover.count("reads_ok_of_files_with_collections_of_more_than_1000_elements", 1);
+				}
 				match rk {
 					Rk::Slice => cover.count("reads_ok_slice", 1),
 					Rk::SliceBufRead => cover.count("reads_ok_slice_as_bufread", 1),
@@ -1286,6 +1465,65 @@ pub fn all_specs(thorough: bool, cover: &mut Cover, cal_out: &mut Vec<Value>) ->
 	}
 	cover.count("specs_family_histories", n_f1 as u64);
 	cover.count("specs_family_sizes", (specs.len() - n_f1) as u64);
+	// F3: growing (and shrinking-then-growing) blocks: small -> medium -> large, incompressible
+	let n_before = specs.len();
+	for codec in Codec::ALL {
+		let lvls = if thorough || codec == Codec::Zstd { levels_of(codec, thorough) } else { vec![0] };
+		for level in lvls {
+			let b = |s: usize| Op::Big { s, inc: true };
+			let pb = |s: usize| Op::PBig { s, inc: true };
+			let r = |s: usize| Op::Run { s, inc: true };
+			let k64 = 64 * 1024u32;
+			let mut cases: Vec<(Sk, u32, Vec<Op>)> = Vec::new();
+			for sk in [Sk::Bytes, Sk::Str] {
+				if sk == Sk::Str && level != 0 {
+					continue;
+				}
+				for s in [600usize, 5000, 70000] {
+					cases.push((sk, k64, vec![Op::S, Op::F, b(s)]));
+					cases.push((sk, 0, vec![Op::S, b(s)]));
+					cases.push((sk, k64, vec![Op::S, Op::F, pb(s)]));
+				}
+				cases.push((sk, k64, vec![b(10), Op::F, b(600), Op::F, b(5000), Op::F, b(70000)]));
+				cases.push((sk, 0, vec![b(10), b(600), b(5000), b(70000)]));
+				cases.push((sk, 1000, vec![Op::S, Op::S, b(600), Op::S, b(5000), pb(70000)]));
+				cases.push((sk, k64, vec![b(5000), Op::F, b(10), Op::F, b(70000)]));
+				cases.push((sk, k64, vec![b(600), Op::F, b(10), Op::F, b(600), Op::F, b(5000)]));
+				cases.push((sk, 0, vec![b(70000), b(10), b(140000)]));
+			}
+			cases.push((Sk::Long, k64, vec![Op::S, Op::F, r(600), Op::F, r(5000), Op::F, r(70000)]));
+			cases.push((Sk::Rec, k64, vec![Op::S, Op::F, Op::Mid { n: 5, len: 1000, inc: true }, Op::F, Op::Mid { n: 60, len: 1000, inc: true }]));
+			for (sk, abs, ops) in cases {
+				specs.push(FileSpec { codec, level, sk, abs, ops, meta: 0 });
+			}
+		}
+	}
+	cover.count("specs_family_growing_blocks", (specs.len() - n_before) as u64);
+	// F4: values that contain arrays / maps of 0, 1, 1000, 1001, ~5000 elements
+	let n_before = specs.len();
+	let ns: Vec<usize> = if thorough { vec![0, 1, 999, 1000, 1001, 1002, 5000, 20000] } else { vec![0, 1, 1000, 1001, 5000] };
+	for codec in Codec::ALL {
+		for sk in Sk::COLL {
+			for &n in &ns {
+				for map in [false, true] {
+					if map && (sk == Sk::ArrLong || n < 1000) {
+						continue;
+					}
+					let c = Op::Coll { n, map, push: false };
+					let pc = Op::Coll { n, map, push: true };
+					specs.push(FileSpec { codec, level: 0, sk, abs: 64 * 1024, ops: vec![c.clone()], meta: 0 });
+					specs.push(FileSpec { codec, level: 0, sk, abs: 0, ops: vec![Op::S, c.clone(), Op::S], meta: 0 });
+					specs.push(FileSpec { codec, level: 0, sk, abs: 64 * 1024, ops: vec![pc.clone(), Op::S, c.clone()], meta: 0 });
+				}
+			}
+			specs.push(FileSpec { codec, level: 0, sk, abs: 64 * 1024, ops: vec![Op::Coll { n: 1000, map: false, push: false }, Op::F, Op::Coll { n: 1001, map: false, push: false }], meta: 0 });
+			// small histories on the collection schemas
+			for ops in sequences(&[Op::S, Op::P, Op::F], if thorough { 3 } else { 2 }) {
+				specs.push(FileSpec { codec, level: 0, sk, abs: 2, ops, meta: 0 });
+			}
+		}
+	}
+	cover.count("specs_family_collections", (specs.len() - n_before) as u64);
 	// dedup, keeping order
 	let mut seen = BTreeSet::new();
 	specs.retain(|s| seen.insert(hash64(s)));
@@ -1541,7 +1779,7 @@ pub fn run(rep: &mut Report) {
 	let specs = all_specs(thorough, &mut cover, &mut cal);
 	rep.extra.insert("sizes_located_by_bisection".into(), json!(cal));
 	rep.rule = format!(
-		"HIST+SAE, every case executed in a single-threaded worker subprocess. A case = one container file: (codec in null/deflate/bzip2/snappy/xz/zstandard, level, schema in bytes/long/string/record/null, approx_block_size, operation history) written by the crate's Writer with the sync marker pinned, parsed by the independent parser (vmodel::cf_parse + own datum decoder; values must equal those written), then read by the crate's Reader through slice, &[u8]-as-BufRead, BufReader capacity 1/7/8192 and ChunkedBufRead with every uniform refill size 1..=|file| (files <= {} bytes) or {{1,2,3,7,4096,8191,8192,8193{}}} (larger files); each reader must yield exactly the written values, then Ok(None) twice. Family 'histories': ALL operation sequences of length <= {} over {{serialize(small), push_serialized(2 objects), finish_block{}}} x approx_block_size in {} x 6 codecs (default level) x 5 schemas. Family 'sizes': datum/block sizes on the buffer boundaries — uncompressed block length 8 Ki/16 Ki/32 Ki/64 Ki +-{} (+128 Ki+1{}), and, per codec and level ({}), sizes located by bisection at which the STORED (compressed) block length reaches 32 Ki/64 Ki/128 Ki, +-{} — as one big datum (bytes, string) or as a run of small datums (bytes, long, record), incompressible (xorshift) or compressible, in the templates [X] (approx_block_size=s), [S,X,S] (s+1), [X,finish,X] (64 Ki), [push(X),S] (s), [X,S] (0){}; plus approx_block_size=u32::MAX. states = writer states after each call + reader runs; transitions = writer calls + values read. Non-trivial (distinct file specifications): the file has >= 2 blocks, or a block whose stored size exceeds 32 KiB, or a block whose uncompressed size is a non-zero multiple of 8192.",
+		"HIST+SAE, every case executed in a single-threaded worker subprocess. A case = one container file: (codec in null/deflate/bzip2/snappy/xz/zstandard, level, schema in bytes/long/string/record/null, approx_block_size, operation history) written by the crate's Writer with the sync marker pinned, parsed by the independent parser (vmodel::cf_parse + own datum decoder; values must equal those written), then read by the crate's Reader through slice, &[u8]-as-BufRead, BufReader capacity 1/7/8192 and ChunkedBufRead with every uniform refill size 1..=|file| (files <= {} bytes) or {{1,2,3,7,4096,8191,8192,8193{}}} (larger files); each reader must yield exactly the written values, then Ok(None) twice. Family 'histories': ALL operation sequences of length <= {} over {{serialize(small), push_serialized(2 objects), finish_block{}}} x approx_block_size in {} x 6 codecs (default level) x 5 schemas. Family 'sizes': datum/block sizes on the buffer boundaries — uncompressed block length 8 Ki/16 Ki/32 Ki/64 Ki +-{} (+128 Ki+1{}), and, per codec and level ({}), sizes located by bisection at which the STORED (compressed) block length reaches 32 Ki/64 Ki/128 Ki, +-{} — as one big datum (bytes, string) or as a run of small datums (bytes, long, record), incompressible (xorshift) or compressible, in the templates [X] (approx_block_size=s), [S,X,S] (s+1), [X,finish,X] (64 Ki), [push(X),S] (s), [X,S] (0){}; plus approx_block_size=u32::MAX. Family 'growing blocks' (every codec; every level for zstandard{}): incompressible datums of 10 / 600 / 5000 / 70000 / 140000 bytes in successive blocks — [S,finish,X], [S,X] at approx_block_size 0, [S,finish,push(X)], small->medium->large with finish_block or approx_block_size 0 or 1000, shrinking-then-growing ([5000,F,10,F,70000], [600,F,10,F,600,F,5000], [70000,10,140000]), runs of longs 600/5000/70000, records 5x1000 then 60x1000. Family 'collections': schemas array<long> and record{{xs:array<int>,m:map<string>}} with values of {} elements (map also that large in a variant), as [V] / [S,V,S] at approx_block_size 0 / [push(V),S,V], [V(1000),finish,V(1001)], and all histories of length <= {} on these schemas, every codec. states = writer states after each call + reader runs; transitions = writer calls + values read. Non-trivial (distinct file specifications): the file has >= 2 blocks, or a block whose stored size exceeds 32 KiB, or a block whose uncompressed size is a non-zero multiple of 8192, or a later block stored in more than twice the bytes of every earlier one, or a value holding a collection of more than 1000 elements.",
 		params.full_sweep_max,
 		if thorough { ",5,64,32767,32768,32769,|file|-1,|file|" } else { "" },
 		if thorough { 5 } else { 3 },
@@ -1552,6 +1790,9 @@ pub fn run(rep: &mut Report) {
 		if thorough { "deflate/bzip2/xz: default,1,5,9,200(clipped); zstandard: default,1,9,19,22,200" } else { "deflate/bzip2/xz: default,1,9,200(clipped); zstandard: default,1,22,200" },
 		if thorough { 4 } else { 1 },
 		if thorough { ", [S,X] (s-1), [X,finish,S] (u32::MAX), [X,push(X),finish,X] (64 Ki), [X,X,X] (s/2+1)" } else { "" },
+		if thorough { " and every level for the other codecs" } else { "" },
+		if thorough { "0/1/999/1000/1001/1002/5000/20000" } else { "0/1/1000/1001/5000" },
+		if thorough { 3 } else { 2 },
 	);
 	rep.assumptions.push("vmodel::container (libflate, streaming bzip2/xz, zstd::stream, snap + bit-serial CRC-32) implements the container framing of the Avro specification".into());
 	rep.assumptions.push("the datums handed to push_serialized are produced by the crate's to_datum, as its documentation prescribes".into());
@@ -1586,7 +1827,10 @@ pub fn run(rep: &mut Report) {
 	cover.count("worker_batches", n_batches as u64);
 	cover.count("violation_signatures(class,codec,level,schema,message)", per_sig.len() as u64);
 	// vacuity guards
-	let guards = ["files_written", "files_with_2_or_more_blocks", "blocks_stored_gt_32KiB", "blocks_stored_gt_64KiB", "blocks_stored_gt_128KiB", "blocks_data_multiple_of_8192", "blocks_stored_within_2_of_32Ki_64Ki_128Ki", "reads_ok_slice", "reads_ok_bufreader", "reads_ok_chunked", "files_without_blocks", "blocks_with_zero_bytes_of_data", "files_partitioned_as_documented"];
+	let guards = ["files_written", "files_with_2_or_more_blocks", "blocks_stored_gt_32KiB", "blocks_stored_gt_64KiB", "blocks_stored_gt_128KiB", "blocks_data_multiple_of_8192", "blocks_stored_within_2_of_32Ki_64Ki_128Ki", "reads_ok_slice", "reads_ok_bufreader", "reads_ok_chunked", "files_without_blocks", "blocks_with_zero_bytes_of_data", "files_partitioned_as_documented", "reads_ok_of_files_with_collections_of_more_than_1000_elements"];
+	let per_codec: Vec<String> = Codec::ALL.iter().map(|c| format!("files_with_a_later_block_more_than_twice_every_earlier_one(codec={})", c.name())).collect();
+	let mut guards: Vec<&str> = guards.to_vec();
+	guards.extend(per_codec.iter().map(|s| s.as_str()));
 	vacuity_guards("C05", rep, &mut cover, &guards);
 	rep.cover.merge(cover);
 }
